@@ -20,7 +20,7 @@ LEVEL = {
     "C11": "Deductive proof (Verus): is_passkey_discoverable equals the capability table, get_info reports rk truthfully, make_credential stores the user handle exactly when discoverable and refuses rk on a non-discoverable-only store, get_assertion returns a user handle exactly when the credential stores one.",
     "C12": "Verus proof of the real constructor / setters (AT / ED set exactly with their section, 65535 limit), of the real encoder (to_vec / into_iter produce exactly the layout of the property, AT or-ed in when the section is present), of the real decoder (37-byte guard, reserved bits, header bytes, big-endian counter, section presence iff flag, truncated / missing section rejected, well-formed input accepted) and of their composition (decoding the encoding returns the same hash, flags, counter, aaguid, credential id, key and extensions); complete Kani harness (all u8) for flag validity. All relative to trusted models of the iterator chain (rule R23), Cursor / Read and a deterministic ciborium / coset with two round-trip axioms; what CBOR those libraries emit is not covered.",
     "C13": "Status-byte clauses only: complete loop-free Kani harnesses over all 256 bytes, and Verus proof of the client's status mapping. CBOR clauses are not decidable.",
-    "C15": "Deductive proof (Verus) of panic-freedom (index / slice / overflow / unwrap / unreachable) of the hand-written decoders of untrusted input: CTAPHID receiver for any packet length and sequence, U2F raw request decoder, public-suffix lookup, the authenticator-data decoder's own slicing and allocation (over reader models), sequence-visitor pre-allocation. Other decoders (CBOR, JSON, COSE, nom fingerprint parser) are outside both verifiers' reach and are listed as not covered.",
+    "C15": "Deductive proof (Verus) of panic-freedom (index / slice / overflow / unwrap / unreachable) of the hand-written decoders of untrusted input: CTAPHID receiver for any packet length and sequence, U2F raw request decoder, public-suffix lookup, the authenticator-data decoder's own slicing and allocation (over reader models), sequence-visitor pre-allocation and termination (an accepted list element must have consumed input), the COSE public-key converter. Other decoders (CBOR, JSON, coset's own decoding, nom fingerprint parser) are outside both verifiers' reach and are listed as not covered.",
     "C16": "Deductive proof (Verus): header layouts, size check, the receiver's step relation for every 64-byte packet, and the reassembly and interleaving theorems for all payloads 0..7609 and all schedules (lemmas over handle_packet's own postcondition). The sender (to_packets, send) is proved to write exactly the packet list those theorems are stated over, for every accepted payload, relative to trusted models of the iterator adapters / for loop (rules R23-R26) and of the byte sink; bounded Kani harnesses check the same on the compiled crate for 9 lengths.",
     "C17": "Deductive proof (Verus) that every well-formed extended-length register / authenticate / version frame parses to that request, field by field. The three response encoders are proved to produce exactly the layouts of the property (unit enc, over rule R23's byte-chain model of into_iter / chain / collect); bounded Kani harnesses check the same layouts on the compiled crate. The real U2fApi::register / authenticate bodies are proved to sign exactly the byte strings of the property with the fresh / stored key and to store / look up the credential for (application, key handle) (unit cer). Partial: that an ECDSA signature verifies is p256 (assumed; checked concretely by the c17 replay sweep only when a clause fails).",
     "C18": "Deductive proof (Verus) on the real impl Ctap2Api for Authenticator: each forwarding method terminates (no self-recursion) and returns the same result and final state as the inherent method (uninterpreted functions of state and request); method resolution is rustc's own.",
